@@ -759,6 +759,54 @@ class HDF5FileSources(Contract):
             o = Obligation(f'HDF5File::append#source.{ds}', {'C10'}, [], z3.BoolVal(bool(ok)), 'postcondition', None,
                            f'dataset {ds} must be appended from {want[0]}({",".join(map(str, want[1]))}); found {got}')
             ex.obls.append(o)
+        # ---- every record travels with an entry of ITS time axis: /PhaseSpace/data has its own axis (_timeAxisPS), everything else
+        # shares _timeAxis.  In append(ps, t, at) each dataset is appended under the same guard as its time axis, exactly once, and
+        # both axes receive the time handed in (&t)
+        tparam = [p_ for p_ in params(apps[0]) if p_.get('name') == 't' or 'timeaxis_t' in p_.get('type', {}).get('qualType', '')]
+        groups = []         # per top-level guarded block: list of (dataset, source text kind)
+        top = [x for x in body(apps[0]).get('inner', []) if isinstance(x, dict)]
+
+        def appends_in(node):
+            out_ = []
+            for call in _walk(node):
+                if call.get('kind') not in ('CallExpr', 'CXXMemberCallExpr'):
+                    continue
+                c = call['inner'][0]
+                while c.get('kind') == 'ImplicitCastExpr':
+                    c = c['inner'][0]
+                if c.get('referencedDecl', {}).get('name') != '_appendData' and c.get('name') != '_appendData':
+                    continue
+                a_ = call['inner'][1:]
+                dsn = [x.get('name') for x in _walk(a_[0]) if x.get('kind') == 'MemberExpr']
+                from_t = bool(tparam) and any(x.get('kind') == 'DeclRefExpr' and (x.get('referencedDecl') or {}).get('id') == tparam[0]['id'] for x in _walk(a_[1]))
+                if dsn:
+                    out_.append((dsn[0], from_t))
+            return out_
+        for st_ in top:
+            if st_.get('kind') == 'IfStmt':
+                groups.append(appends_in(st_['inner'][1]) if len(st_['inner']) > 1 else [])
+                if len(st_['inner']) > 2:
+                    groups.append(appends_in(st_['inner'][2]))
+            else:
+                g_ = appends_in(st_)
+                if g_:
+                    groups.append(g_)
+        where = {}
+        for gi, g_ in enumerate(groups):
+            for dsn, from_t in g_:
+                where.setdefault(dsn, []).append((gi, from_t))
+        def once(dsn):
+            return len(where.get(dsn, [])) == 1
+        ok_axes = once('_timeAxis') and once('_timeAxisPS') and where['_timeAxis'][0][1] and where['_timeAxisPS'][0][1] and where['_timeAxis'][0][0] != where['_timeAxisPS'][0][0]
+        ex.obls.append(Obligation('HDF5File::append#time_axes.each_written_once_from_t', {'C10', 'C14'}, [], z3.BoolVal(bool(ok_axes)), 'postcondition', None,
+                                  f'_timeAxis and _timeAxisPS are each appended exactly once, from the time argument, under different guards (found {dict((k, v) for k, v in where.items() if k.startswith("_timeAxis"))})'))
+        if ok_axes:
+            g_ps, g_other = where['_timeAxisPS'][0][0], where['_timeAxis'][0][0]
+            for dsn in sorted(self.APPEND_SOURCES):
+                want_g = g_ps if dsn == '_phaseSpace' else g_other
+                ok_ = once(dsn) and where[dsn][0][0] == want_g
+                ex.obls.append(Obligation(f'HDF5File::append#time_axes.{dsn}.travels_with_its_axis', {'C10', 'C14'}, [], z3.BoolVal(bool(ok_)), 'postcondition', None,
+                                          f'dataset {dsn} is appended exactly once, under the same guard as {"_timeAxisPS" if dsn == "_phaseSpace" else "_timeAxis"} (found {where.get(dsn)})'))
         # ---- one record per append call (the row counters of the control skeleton rely on it): in every append
         # overload except appendRFKicks the record-count argument of _appendData must be left at its default (1)
         for fname, fl in tu.funcs.items():
